@@ -22,7 +22,7 @@ func init() {
 	register(&propDef{
 		ID: "C08",
 		Meta: propMeta{
-			Explanation: "Decides structural necessary conditions (nothing is executed): (R08a) for every registered signer that can both sign and verify, a sigerrors.NotSignedError value is constructed somewhere in the code reachable from its verifier (frozen, reasoned exceptions: pgp, where an unsigned input is not an OpenPGP message at all), and Signer.IsSigned calls the verifier with digest checking off, answers true on a nil error, false on exactly NotSignedError and passes every other error on; (R08b) both sides of each container format agree on what belongs to the signature: the MSI digesters and the tar digester skip the two signature streams; the JAR digester and the JAR patch builder consult one keepFile predicate, the VSIX mangler deletes exactly what its keepFile rejects and digests the rest; DigestXapTar strips the trailer from the directory before hashing it; the Debian signer neither digests _gpg* members nor leaves the member of the same role in place; xmldsig.Sign removes an existing Signature before digesting; (R08c) formats whose signature is a trailer after the container: the client transform of the XAP signer determines where the zip ends from the trailer, as the verifier does, before looking for the central directory.",
+			Explanation: "Decides structural necessary conditions (nothing is executed): (R08a) for every registered signer that can both sign and verify, a sigerrors.NotSignedError value is constructed somewhere in the code reachable from its verifier (frozen, reasoned exceptions: pgp, where an unsigned input is not an OpenPGP message at all), and Signer.IsSigned calls the verifier with digest checking off, answers true on a nil error, false on exactly NotSignedError and passes every other error on; (R08b) both sides of each container format agree on what belongs to the signature: the MSI digesters and the tar digester skip the two signature streams; the JAR digester and the JAR patch builder consult one keepFile predicate, the VSIX mangler deletes exactly what its keepFile rejects and digests the rest; DigestXapTar strips the trailer from the directory before hashing it; the Debian signer neither digests _gpg* members nor leaves the member of the same role in place; xmldsig.Sign removes an existing Signature before digesting; (R08c) formats whose signature is a trailer after the container: the client transform of the XAP signer determines where the zip ends from the trailer, as the verifier does, before looking for the central directory; (R08d) replacement is exact: the Debian signer marks a member for replacement only under equality of its name with \"_gpg\"+role, InsertMSISignature adds or deletes each of the two signature streams on every success path, and DigestPE feeds nothing into the image digest after imageHasher.finish().",
 			NotDecided:  "equality of content digests with and without an existing signature (PE checksum/certificate-table fields, CAB reserve area, Mach-O load commands are value-level offsets), validity of the artifact after n signing rounds, payload equality. pocs/C08_resign.sh exercises three rounds per fixture format as supporting evidence outside the static check.",
 			Assumptions: []string{"the signer registry consists of the signers.Signer literals passed to signers.Register"},
 		},
@@ -39,9 +39,11 @@ func runC08(c *Ctx) {
 	c.Rule("R08a", "\"not signed\" is a distinguishable verdict of every verifier and IsSigned maps exactly it to false", 18)
 	c.Rule("R08b", "signing and verifying agree on which members/regions belong to the signature", 10)
 	c.Rule("R08c", "trailer formats find the end of the container from the trailer when signing again", 2)
+	c.Rule("R08d", "exactly the signature of the same slot is replaced; the digest is complete when it is finalised", 4)
 	c08NotSigned(c)
 	c08SkipSets(c)
 	c08Trailer(c)
+	c08Replace(c)
 }
 
 func isNotSignedType(s string) bool {
@@ -389,4 +391,149 @@ func dependsOnlyOnSeekEnd(p *Prog, v ssa.Value) bool {
 		return false
 	}
 	return isIntConst(call.Common().Args[2], 2)
+}
+
+// ------------------------------------------------------------------------------ R08d
+
+// c08Replace: the signature that is replaced is exactly the one of the same slot, and the
+// digest is complete before it is finalised.
+func c08Replace(c *Ctx) {
+	p := c.P
+	// Debian: the member marked for replacement is the one whose name EQUALS "_gpg"+role
+	if fn := p.Func("lib/signdeb.Sign"); fn == nil {
+		c.Undecided("R08d", "signdeb.Sign", "-", "function not found")
+	} else {
+		c.Analysed(p.FName(fn))
+		var role *ssa.Parameter
+		for _, pa := range fn.Params {
+			if pa.Name() == "role" {
+				role = pa
+			}
+		}
+		adds := p.callsIn(fn, "(*lib/binpatch.PatchSet).Add")
+		if role == nil || len(adds) != 1 {
+			c.Undecided("R08d", "signdeb.Sign patch region", p.Pos(fn.Pos()), "role parameter or the single PatchSet.Add call not found")
+		} else {
+			eq := Guard{Name: "member name == \"_gpg\"+role", Match: func(f Fact) bool {
+				bo, ok := f.V.(*ssa.BinOp)
+				if !ok || !((bo.Op == token.EQL && f.Kind == IsTrue) || (bo.Op == token.NEQ && f.Kind == IsFalse)) {
+					return false
+				}
+				isSlot := func(v ssa.Value) bool {
+					return dependsOn(v, func(x ssa.Value) bool { return x == ssa.Value(role) })
+				}
+				return isSlot(bo.X) || isSlot(bo.Y)
+			}}
+			// every in-loop definition of the patch offset/length that is not the "append at the end"
+			// default sits behind that equality
+			n := 0
+			ok := true
+			var path []string
+			for _, ai := range []int{1, 2} {
+				for _, lf := range phiLeaves(adds[0].Common().Args[ai], nil, map[*ssa.Phi]bool{}) {
+					if _, isK := lf.V.(*ssa.Const); isK {
+						continue
+					}
+					in, isIn := lf.V.(ssa.Instruction)
+					if !isIn || in.Block() == nil {
+						continue
+					}
+					if !inCycleWith(fn, in.Block(), nil) {
+						continue // the end-of-file default after the loop
+					}
+					n++
+					if missing, w := p.unguardedFromEntry(fn, in, eq); len(missing) > 0 {
+						ok = false
+						path = w
+					}
+				}
+			}
+			c.Check(ok && n >= 2, "R08d", "signdeb.Sign replaces only the member named exactly _gpg<role>", p.Pos(adds[0].Pos()), fmt.Sprintf("%d in-loop definitions behind the name equality", n),
+				"the region handed to the patch as \"old signature\" is chosen by something weaker than equality of the member name with \"_gpg\"+role (prefix match or no test): signing role X replaces or duplicates the signature of another role whose name merely starts with X", path...)
+		}
+	}
+	// MSI: both signature streams are rewritten (added, or deleted when absent) on every success path
+	if fn := p.Func("lib/authenticode.InsertMSISignature"); fn == nil {
+		c.Undecided("R08d", "InsertMSISignature", "-", "function not found")
+	} else {
+		c.Analysed(p.FName(fn))
+		slot := func(ci ssa.CallInstruction) string {
+			if len(ci.Common().Args) < 2 {
+				return ""
+			}
+			if l, ok := stripConv(ci.Common().Args[1]).(*ssa.UnOp); ok && l.Op == token.MUL {
+				if g, ok := l.X.(*ssa.Global); ok {
+					return g.Name()
+				}
+			}
+			return ""
+		}
+		touch := map[string][]ssa.CallInstruction{}
+		for _, ci := range p.callsIn(fn, "(*lib/comdoc.ComDoc).AddFile", "(*lib/comdoc.ComDoc).DeleteFile") {
+			touch[slot(ci)] = append(touch[slot(ci)], ci)
+		}
+		for _, name := range []string{"msiDigitalSignature", "msiDigitalSignatureEx"} {
+			del := map[edge]bool{}
+			for _, ci := range touch[name] {
+				for si := range ci.Block().Succs {
+					del[edge{ci.Block().Index, si}] = true
+				}
+			}
+			seen := reach(fn, []*ssa.BasicBlock{fn.Blocks[0]}, del, nil)
+			ok := len(touch[name]) > 0
+			for _, r := range p.successReturns(fn) {
+				inTouch := false
+				for _, ci := range touch[name] {
+					if ci.Block() == r.Block() {
+						inTouch = true
+					}
+				}
+				if seen[r.Block().Index] && !inTouch {
+					ok = false
+				}
+			}
+			c.Check(ok, "R08d", "InsertMSISignature rewrites "+name+" on every success path", p.Pos(fn.Pos()), "added or deleted", "InsertMSISignature can succeed without adding or deleting the "+name+" stream: a stale stream from an earlier signing (made with other options) stays in the file and the new signature does not verify against it")
+		}
+	}
+	// PE: nothing is written into the image digest after it was finalised
+	if fn := p.Func("lib/authenticode.DigestPE"); fn == nil {
+		c.Undecided("R08d", "DigestPE", "-", "function not found")
+	} else {
+		c.Analysed(p.FName(fn))
+		fin := p.callsIn(fn, "(*lib/authenticode.imageHasher).finish")
+		if len(fin) != 1 {
+			c.Undecided("R08d", "DigestPE finish", p.Pos(fn.Pos()), fmt.Sprintf("%d calls of imageHasher.finish found, 1 expected", len(fin)))
+		} else {
+			bad := ""
+			n := 0
+			for _, b := range fn.Blocks {
+				for _, in := range b.Instrs {
+					ci, ok := in.(ssa.CallInstruction)
+					if !ok {
+						continue
+					}
+					feeds := false
+					for _, a := range ci.Common().Args {
+						if p.memKey(stripConv(a)) == "f:lib/authenticode.imageHasher.imageDigest" {
+							feeds = true
+						}
+					}
+					if ci.Common().IsInvoke() && p.memKey(ci.Common().Value) == "f:lib/authenticode.imageHasher.imageDigest" {
+						feeds = true
+					}
+					if p.calleeName(ci.Common()) == "(*lib/authenticode.imageHasher).section" {
+						feeds = true
+					}
+					if !feeds {
+						continue
+					}
+					n++
+					if reachableAfter(fn, fin[0], ci, nil, nil) {
+						bad = p.Pos(ci.Pos())
+					}
+				}
+			}
+			c.Check(bad == "" && n >= 3, "R08d", "DigestPE finalises the digest after the last byte was fed", p.Pos(fin[0].Pos()), fmt.Sprintf("%d feeding sites, none after finish", n), "the image digest is fed at "+bad+" after imageHasher.finish() has taken the sum: the alignment padding of a file whose length is not a multiple of 8 is missing from the imprint, so the unsigned and the signed file digest differently")
+		}
+	}
 }
